@@ -79,7 +79,7 @@ let body_of (root : xml) : string =
   Buffer.contents b
 
 let verdict (root : xml) : string * string * bool * bool =
-  let v = val_math_env std_vars std_units root in
+  let v = val_math_env_head std_vars std_units root in
   let a = ana_math_env std_vars root in
   let vs = if v = [] then "-" else String.concat "," (List.map (fun r -> implode (rule_name r)) v) in
   let as_, ok = match a with
@@ -104,7 +104,7 @@ let () =
              (List.map fst l, l, 2 + 2 * n)
            end else (std_vars, [], 0) in
          let root = parse_from toks start in
-         let v = val_math_env vars std_units root in
+         let v = val_math_env_head vars std_units root in
          let vs = if v = [] then "-" else String.concat "," (List.map (fun r -> implode (rule_name r)) v) in
          let as_ = match ana_math_env vars root with
            | Ok _ -> "ok"
